@@ -86,7 +86,7 @@ def compare(tr, ir, mv, case):
 
 
 def run(rep, model, tier, seed, broken=()):
-    n = 140 if tier == "quick" else 5000
+    n = 300 if tier == "quick" else 5000
     rng = core.rng_for(seed, "C14")
     rep.coverage["rule"] = ("trees and option combinations of C13 with exclusion patterns (sub-directories excluded by "
                             "pattern, auto-excluded, empty after exclusion, nested below directories without CMake "
